@@ -345,10 +345,10 @@ func RuleZone(r *Report, p *Program, c *Codec) {
 	}
 	// Z4: the two recombination sites
 	type recomb struct {
-		fn                    *ssa.Function
+		fn                   *ssa.Function
 		dateL, timeL, parseL string
-		local                 bool
-		sep                   string
+		local                bool
+		sep                  string
 	}
 	var sites []recomb
 	for _, fn := range p.AllFuncs {
